@@ -67,8 +67,98 @@ func init() {
 	Plans["C13"] = planC13
 }
 
+// Alphabets for S(L,Σ) (DESIGN 1.8) and token sets for token-mode sources.
+var alphabets = map[string]string{
+	"blocks":  ">\t# a\n-",
+	"inline":  "*_[]()`\\a\n !",
+	"fences":  "`~>\n a-",
+	"entity":  "&#x;1a<>\n",
+	"lists":   "-1.) \na\t",
+}
+
+const tokSep = "\x1f"
+
+var tokenSets = map[string][]string{
+	"containers": {"> ", "```", "\n", "a", "- ", "    "},
+	"contain5":   {"> ", "```", "\n", "a", "- "},
+	"inlines":    {"*", "_", "[", "](", ")", "`", "a", " ", "\n", "!", "<", ">"},
+	"inlines9":   {"*", "[", "](", ")", "`", "a", " ", "\n", "!"},
+	"blocks2":    {"# ", "---", "\n", "a", "1. ", "\t", "<div>", "[a]: b", "|", "~~~"},
+}
+
+// templates: seed documents with a window of symbolic bytes (T(F) of DESIGN 1.8).
+type tmpl struct {
+	Seed string
+	Pos  int
+	W    int
+}
+
+var coreTemplates = []tmpl{
+	{"[a](XX)", 4, 2}, {"[a](<XX>)", 5, 2}, {"![a](XX)", 5, 2}, {"[a]: XX\n\n[a]", 5, 2}, {"<XX>", 1, 2},
+	{"[a](b \"XX\")", 8, 2}, {"[XX]\n\n[a]: b", 1, 2}, {"`XX`", 1, 2}, {"*XX*", 1, 2}, {"&XX;", 1, 2}, {"&#XX;", 2, 2},
+	{"```XX\na\n```", 3, 2}, {"# a {XX}", 5, 2}, {"# a {#XX}", 6, 2}, {"# a {k=XX}", 7, 2}, {"# a {id=XX}", 8, 2}, {"a {id=XX}\n===", 6, 2}, {"# a {class=XX}", 11, 2}, {"a\nXX\n", 2, 2}, {"- a\nXXb", 4, 2},
+	{"> a\nXXb", 4, 2}, {"<!--XX-->", 4, 2}, {"<a href=\"XX\">", 9, 2}, {"1. a\n\n   XXb", 9, 2}, {"\\XX", 1, 2},
+}
+
+func tmplJobs(entry string, ts []tmpl, cfgs []string, extra ...interface{}) []interp.Job {
+	var out []interp.Job
+	for _, c := range cfgs {
+		for _, t := range ts {
+			kv := append([]interface{}{"cfg", c, "seed", t.Seed, "pos", t.Pos, "window", t.W}, extra...)
+			out = append(out, job(entry, kv...))
+		}
+	}
+	return out
+}
+
+func alphaJobs(entry string, names []string, n int, cfgs []string, extra ...interface{}) []interp.Job {
+	var out []interp.Job
+	for _, c := range cfgs {
+		for _, a := range names {
+			kv := append([]interface{}{"cfg", c, "n", n, "alpha", alphabets[a]}, extra...)
+			out = append(out, job(entry, kv...))
+		}
+	}
+	return out
+}
+
+func tokenJobs(entry string, names []string, n int, cfgs []string, extra ...interface{}) []interp.Job {
+	var out []interp.Job
+	for _, c := range cfgs {
+		for _, a := range names {
+			kv := append([]interface{}{"cfg", c, "n", n, "tokens", joinTok(tokenSets[a])}, extra...)
+			out = append(out, job(entry, kv...))
+		}
+	}
+	return out
+}
+
+func joinTok(ts []string) string {
+	s := ""
+	for i, t := range ts {
+		if i > 0 {
+			s += tokSep
+		}
+		s += t
+	}
+	return s
+}
+
+// windowJobs: W(C,w) — corpus documents with a window of w symbolic bytes at seeded positions.
+func windowJobs(entry string, docs []Doc, seed int64, count, w int, cfgs []string, extra ...interface{}) []interp.Job {
+	var out []interp.Job
+	sl := corpusSlice(docs, seed, 160, count)
+	for i, x := range sl {
+		c := cfgs[i%len(cfgs)]
+		kv := append([]interface{}{"cfg", c, "seed", x.D.Markdown, "pos", x.Pos, "window", w}, extra...)
+		out = append(out, job(entry, kv...))
+	}
+	return out
+}
+
 func planC01(tier string, seed int64) (*Plan, error) {
 	p := &Plan{MustReach: []string{"done"}}
+	thorough := tier == "thorough"
 	popts := []string{"", "autoid,attr"}
 	ropts := []string{"", "unsafe,xhtml,hardwraps"}
 	var cfgs []string
@@ -84,13 +174,51 @@ func planC01(tier string, seed int64) (*Plan, error) {
 			p.Jobs = append(p.Jobs, job("H_c01_convert", "cfg", c, "n", n))
 		}
 	}
-	s3 := []string{cfg("core", "", ""), cfg("cjk", "", ""), cfg(allExt, "autoid,attr", "")}
+	core, cjk, all := cfg("core", "", ""), cfg("cjk", "", ""), cfg(allExt, "autoid,attr", "")
+	s3 := []string{core, cjk}
+	if thorough {
+		s3 = cfgs
+	}
 	for _, c := range s3 {
 		p.Jobs = append(p.Jobs, job("H_c01_convert", "cfg", c, "n", 3))
 	}
-	p.Bounds = map[string]interface{}{"S(L)": "every byte string of length 0..2 over all 256 byte values", "configurations": cfgs,
-		"S(3)": "every byte string of length 3, configurations " + fmt.Sprint(s3)}
-	p.Rule = "one job per (configuration, length); paths enumerated exhaustively by decision-prefix re-execution"
+	la, nwin := 4, 120
+	if thorough {
+		la, nwin = 6, 3000
+	}
+	anames := []string{"blocks", "inline", "fences", "entity", "lists"}
+	p.Jobs = append(p.Jobs, alphaJobs("H_c01_convert", anames, la, []string{core, all})...)
+	if thorough {
+		p.Jobs = append(p.Jobs, alphaJobs("H_c01_convert", []string{"blocks", "fences"}, 7, []string{core})...)
+		p.Jobs = append(p.Jobs, tokenJobs("H_c01_convert", []string{"containers"}, 7, []string{core, all})...)
+		p.Jobs = append(p.Jobs, tokenJobs("H_c01_convert", []string{"inlines", "blocks2"}, 5, []string{core, all})...)
+		p.Jobs = append(p.Jobs, tmplJobs("H_c01_convert", coreTemplates, []string{all, cfg("core", "autoid,attr", "unsafe"), cfg("gfm,cjk", "attr", "xhtml")})...)
+	} else {
+		p.Jobs = append(p.Jobs, tokenJobs("H_c01_convert", []string{"contain5"}, 6, []string{core})...)
+		p.Jobs = append(p.Jobs, tokenJobs("H_c01_convert", []string{"contain5"}, 5, []string{all})...)
+		p.Jobs = append(p.Jobs, tokenJobs("H_c01_convert", []string{"inlines9", "blocks2"}, 4, []string{core})...)
+		p.Jobs = append(p.Jobs, tmplJobs("H_c01_convert", coreTemplates, []string{all})...)
+	}
+	docs, err := LoadCorpus()
+	if err != nil {
+		return nil, err
+	}
+	p.Jobs = append(p.Jobs, windowJobs("H_c01_convert", docs, seed, nwin, 1, []string{all, core, cfg("gfm,cjkcss3", "attr", "xhtml")})...)
+	if thorough {
+		p.Jobs = append(p.Jobs, job("H_c01_convert", "cfg", core, "n", 4))
+		p.Jobs = append(p.Jobs, windowJobs("H_c01_convert", docs, seed+1, 150, 2, []string{all})...)
+	}
+	p.Bounds = map[string]interface{}{
+		"S(2)":      "every byte string of length 0..2 (256 values per byte) x 36 configurations: " + fmt.Sprint(cfgs),
+		"S(3)":      "every byte string of length 3 x " + fmt.Sprint(s3),
+		"S(L,alphabet)": fmt.Sprintf("every string of length %d over each alphabet %v x {core, all extensions+autoid+attr}", la, alphabets),
+		"tokens":    fmt.Sprintf("quick: every sequence of 6 (core) / 5 (all) tokens from 'contain5', 4 tokens from 'inlines9'/'blocks2'; thorough: 7 from 'containers', 5 from 'inlines'/'blocks2' x {core, all}: %v", tokenSets),
+		"templates": fmt.Sprintf("%d seed templates with a 2-byte fully symbolic window (link/image destinations, titles, labels, attributes, info strings, entities, raw HTML)", len(coreTemplates)),
+		"W(C,1)":    fmt.Sprintf("%d seeded (corpus document, offset) pairs with one fully symbolic byte, VERIF_SEED=%d; thorough adds W(C,2) on 150 pairs and S(4) core", nwin, seed),
+		"budget":    "20M SSA instructions per path stands for 'terminates'; a budget hit is replayed natively under a 20 s watchdog",
+		"outside":   "longer free-form inputs, wider windows, user extensions, failing writers (C14)",
+	}
+	p.Rule = "one job per (configuration, input family instance); every path of every job explored"
 	return p, nil
 }
 
